@@ -95,6 +95,7 @@ type fnode struct {
 }
 
 type fgroup struct {
+	yname string // the name written in the YANG text (a local grouping may shadow a module-level one)
 	name  string
 	body  []*fnode
 	where string // module | local | sub | imp
@@ -288,6 +289,7 @@ func (g *c01gen) uses(depth int, cfgFalse bool, within string, siblingNames map[
 			where = "sub"
 		}
 		grp = &fgroup{name: g.name("g"), where: where}
+		grp.yname = grp.name
 		in := within
 		if where == "imp" || where == "sub" {
 			in = where
@@ -423,7 +425,7 @@ func (t c01text) nodes(ns []*fnode, indent string, from string) string {
 	var locals []string
 	for _, n := range ns {
 		if n.kind == "uses" && n.g.where == "local" {
-			locals = append(locals, fmt.Sprintf("%sgrouping %s {\n%s%s}\n", indent, n.g.name, t.nodes(n.g.body, indent+"  ", from), indent))
+			locals = append(locals, fmt.Sprintf("%sgrouping %s {\n%s%s}\n", indent, n.g.yname, t.nodes(n.g.body, indent+"  ", from), indent))
 		}
 	}
 	front := t.g.r.Chance(50)
@@ -439,9 +441,16 @@ func (t c01text) nodes(ns []*fnode, indent string, from string) string {
 		case "list":
 			fmt.Fprintf(&b, "%slist %s { key %s;%s\n%s%s}\n", indent, n.name, n.kids[0].name, n.p.yang("list"), t.nodes(n.kids, indent+"  ", from), indent)
 		case "uses":
-			ref := n.g.name
+			ref := n.g.yname
 			if n.g.where == "imp" && from != "imp" {
 				ref = "lib:" + ref
+			} else if t.g.r.Chance(30) {
+				// the module's own prefix means the same as no prefix (RFC 7950 §5.1.1 / §7.13)
+				if from == "imp" {
+					ref = "lib:" + ref
+				} else {
+					ref = "m:" + ref
+				}
 			}
 			if len(n.refines) == 0 && len(n.augs) == 0 {
 				fmt.Fprintf(&b, "%suses %s;\n", indent, ref)
@@ -584,6 +593,45 @@ func C01(c *core.Ctx) {
 		r := rng.Fork()
 		g := &c01gen{r: r}
 		body := g.body(0, false, "module", 2+r.Intn(4))
+		if r.Chance(35) {
+			x := &fgroup{name: g.name("g"), where: core.Pick(r, []string{"module", "sub", "imp"})}
+			x.yname = x.name
+			xc := &fnode{kind: "cont", name: g.name("c"), p: g.props("cont", true, false), kids: []*fnode{{kind: "leaf", name: g.name("f"), p: g.props("leaf", true, false)}}}
+			x.body = []*fnode{xc}
+			added := &fnode{kind: "leaf", name: g.name("f"), p: fprops{}}
+			gg := &fgroup{name: g.name("g"), where: "module"}
+			if x.where == "imp" && r.Chance(50) {
+				gg.where = "imp"
+			}
+			gg.yname = gg.name
+			gg.body = []*fnode{{kind: "uses", g: x, augs: []faug{{path: []string{xc.name}, kids: []*fnode{added}}}}}
+			x.uses++
+			g.groups = append(g.groups, x, gg)
+			f := false
+			d := "refined in one use only"
+			p1 := &fnode{kind: "cont", name: g.name("c"), p: fprops{config: &f}, kids: []*fnode{{kind: "uses", g: gg}}}
+			p2 := &fnode{kind: "cont", name: g.name("c"), kids: []*fnode{{kind: "uses", g: gg, refines: []frefine{{path: []string{xc.name, added.name}, p: fprops{desc: &d}}}}}}
+			p3 := &fnode{kind: "cont", name: g.name("c"), kids: []*fnode{{kind: "uses", g: gg}}}
+			gg.uses += 3
+			extra := []*fnode{p1, p2, p3}
+			for i := len(extra) - 1; i > 0; i-- {
+				j := r.Intn(i + 1)
+				extra[i], extra[j] = extra[j], extra[i]
+			}
+			body = append(body, extra...)
+			c.Count("scenario", "reused grouping that augments what it uses")
+		}
+		// a local grouping that shadows a module-level one: the use next to it gets the local one
+		for _, mg := range g.groups {
+			if mg.where == "module" && r.Chance(30) {
+				sh := &fgroup{name: g.name("g"), yname: mg.yname, where: "local", uses: 1}
+				sh.body = []*fnode{{kind: "leaf", name: g.name("f"), p: g.props("leaf", false, false)}}
+				g.groups = append(g.groups, sh)
+				body = append(body, &fnode{kind: "cont", name: g.name("c"), kids: []*fnode{{kind: "uses", g: sh}}})
+				c.Count("scenario", "local grouping shadows a module-level one")
+				break
+			}
+		}
 		exp := c01expand(body)
 		// module-level augments: into containers of the expanded body, in textual order
 		var conts [][]string
@@ -615,7 +663,7 @@ func C01(c *core.Ctx) {
 		tx := c01text{g}
 		var modG, subG, impG []string
 		for _, gr := range g.groups {
-			txt := fmt.Sprintf("  grouping %s {\n%s  }\n", gr.name, tx.nodes(gr.body, "    ", gr.where))
+			txt := fmt.Sprintf("  grouping %s {\n%s  }\n", gr.yname, tx.nodes(gr.body, "    ", gr.where))
 			switch gr.where {
 			case "module":
 				modG = append(modG, txt)
